@@ -163,6 +163,30 @@ def _canon_compare(tree):
             n.ops = [ast.Lt() if isinstance(n.ops[0], ast.Gt) else ast.LtE()]
 
 
+KNOWN_GLOBALS = frozenset("""CBAR_TICKS D2R DEFAULTS DEFAULT_DIRS DEFAULT_FREQS E2V HEADER_REGEX_STR HERE IPI LOG_CONTOUR_LEVELS LOG_FACTOR MAPPING
+METADATA PARAMETERS_CSV PARAMETERS_JSON R2D RADII_FREQ_TICKS_LIN RADII_FREQ_TICKS_LOG RADII_PER_TICKS_LIN RADII_PER_TICKS_LOG SPECTRAL STATS
+SUPPORTED_KIND TIME_UNITS VARIABLES VAR_ATTRIBUTES __version__ here logger to_keep""".split())
+
+
+def _const_expr(v, depth=0):
+    """Is v a constant expression (numbers, strings, pi, arithmetic on them, tuples / lists / dicts of them)?"""
+    if depth > 6:
+        return False
+    if isinstance(v, ast.Constant):
+        return type(v.value) in (int, float, str, bool) or v.value is None
+    if isinstance(v, ast.UnaryOp) and isinstance(v.op, (ast.USub, ast.UAdd)):
+        return _const_expr(v.operand, depth + 1)
+    if isinstance(v, ast.BinOp) and isinstance(v.op, (ast.Add, ast.Sub, ast.Mult, ast.Div, ast.Pow)):
+        return _const_expr(v.left, depth + 1) and _const_expr(v.right, depth + 1)
+    if isinstance(v, ast.Attribute) and v.attr in ("pi", "e") and isinstance(v.value, ast.Name) and v.value.id in ("np", "numpy", "math"):
+        return True
+    if isinstance(v, (ast.Tuple, ast.List)):
+        return all(_const_expr(x, depth + 1) for x in v.elts)
+    if isinstance(v, ast.Dict):
+        return all(k is not None and _const_expr(k, depth + 1) and _const_expr(x, depth + 1) for k, x in zip(v.keys, v.values))
+    return False
+
+
 def _module_literals(tree):
     """Module-level names bound exactly once, at top level, to a numeric literal (never rebound, never declared global)."""
     counts, vals = {}, {}
@@ -181,6 +205,9 @@ def _module_literals(tree):
             neg = isinstance(v, ast.UnaryOp) and isinstance(v.op, ast.USub)
             c = v.operand if neg else v
             if isinstance(c, ast.Constant) and type(c.value) in (int, float):
+                vals[st.targets[0].id] = v
+            elif st.targets[0].id not in KNOWN_GLOBALS and not st.targets[0].id.startswith("__") and _const_expr(v):
+                # constants introduced after the rules were written (hoisted literals, tables, format strings): same program as the literal
                 vals[st.targets[0].id] = v
     for n in ast.walk(tree):
         if isinstance(n, (ast.Global, ast.Nonlocal)):
@@ -228,8 +255,8 @@ class _InlineLits(ast.NodeTransformer):
 
     def visit_Name(self, n):
         if isinstance(n.ctx, ast.Load) and len(self.shadow) > 1 and n.id in self.lits and n.id not in self.shadow[-1]:
-            import copy
-            new = copy.deepcopy(self.lits[n.id])
+            from .inline import _clone
+            new = _clone(self.lits[n.id])
             for x in ast.walk(new):
                 ast.copy_location(x, n)
             return new
@@ -362,6 +389,8 @@ class Repo:
                 for n in ast.walk(m.tree):
                     for c in ast.iter_child_nodes(n):
                         c._parent = n
+        from .inline import inline_new_private_helpers
+        self.inlined_calls = inline_new_private_helpers(self)
         ypath = os.path.join(pkgdir, "core", "attributes.yml")
         if not os.path.exists(ypath):
             raise AnalysisError("wavespectra/core/attributes.yml vanished")
@@ -402,8 +431,11 @@ class Repo:
         return m.classes[cn]
 
     def all_funcs(self):
+        skip = getattr(self, "inlined_helpers", ())
         for m in self.modules.values():
-            yield from m.all_funcs()
+            for fi in m.all_funcs():
+                if fi.qualname not in skip:
+                    yield fi
 
     # ---- dynamic registrations ------------------------------------------------------
     def plugins(self):
